@@ -410,6 +410,8 @@ def _stmt_worker(args):
         it = iter(atoms)
     elif depth == 2:
         it = stmts.depth2(atoms)
+    elif depth == 4:
+        it = stmts.skeletons()
     else:
         it = stmts.depth3(atoms, stride, offset)
         stride = 1
@@ -434,7 +436,7 @@ def _stmt_worker(args):
 
 def run_statements(tier, seed):
     procs = min(16, os.cpu_count() or 1)
-    plan = [(1, 1, 0), (2, 4 if tier == "quick" else 1, seed)]
+    plan = [(1, 1, 0), (2, 4 if tier == "quick" else 1, seed), (4, 1, 0)]  # 4 = control-structure skeletons
     if tier != "quick":
         plan.append((3, 40, seed))
     tot = {"statements": 0, "paths": 0, "queries": 0, "solver_s": 0.0}
